@@ -178,7 +178,10 @@ TRUSTED = [
 ]
 
 if __name__ == "__main__":
+    import translate_prune
+    from common import source_obligation
     main("C19", [PruneStream()],
+         source_obligations=[source_obligation("PruneSrc_C19", translate_prune.translate, "PruneSrcProof.v", ["prune_src_is_prune"])],
          level_text="props/C19.v (all hierarchies): after prune no dead branch is left at any level; a hierarchy without dead "
                     "branches is unchanged (so prune is idempotent and removes nothing else: structures, connections, exposures "
                     "stay); the returned flag is 'the solver is empty'; the surviving leaves are exactly the non-empty ones in "
